@@ -52,6 +52,7 @@ import (
 	"github.com/openGemini/openGemini/lib/config"
 	"github.com/openGemini/openGemini/lib/errno"
 	"github.com/openGemini/openGemini/lib/logger"
+	"github.com/openGemini/openGemini/lib/spdy/transport"
 	meta2 "github.com/openGemini/openGemini/lib/util/lifted/influx/meta"
 	proto2 "github.com/openGemini/openGemini/lib/util/lifted/influx/meta/proto"
 	"github.com/openGemini/openGemini/lib/util/lifted/protobuf/proto"
@@ -1188,6 +1189,27 @@ func (s *mcSink) ID() string    { return "verif" }
 func (s *mcSink) Cancel() error { return nil }
 func (s *mcSink) Close() error  { return nil }
 
+// mcNet stands in for the store's network side (requests from ts-meta to the stores): the state
+// machine's apply handlers start them asynchronously and do not wait for the result.
+type mcNet struct{}
+
+func (mcNet) GetShardSplitPoints(node *meta2.DataNode, database string, pt uint32, shardId uint64, idxes []int64) ([]string, error) {
+	return nil, nil
+}
+func (mcNet) DeleteDatabase(node *meta2.DataNode, database string, pt uint32) error { return nil }
+func (mcNet) DeleteRetentionPolicy(node *meta2.DataNode, db string, rp string, pt uint32) error {
+	return nil
+}
+func (mcNet) DeleteMeasurement(node *meta2.DataNode, db string, rp string, name string, shardIds []uint64) error {
+	return nil
+}
+func (mcNet) MigratePt(nodeID uint64, data transport.Codec, cb transport.Callback) error { return nil }
+func (mcNet) SendSegregateNodeCmds(nodeIDs []uint64, address []string) (int, error)    { return 0, nil }
+func (mcNet) TransferLeadership(database string, nodeId uint64, oldMasterPtId, newMasterPtId uint32) error {
+	return nil
+}
+func (mcNet) SendClearEvents(nodeId uint64, data transport.Codec) error { return nil }
+
 type mcFsm struct {
 	store *metasrv.Store
 	fsm   raft.FSM
@@ -1212,6 +1234,7 @@ func mcNewFsm(sclean bool) *mcFsm {
 		return nil
 	}
 	st.Logger = logger.NewLogger(errno.ModuleMeta).SetZapLogger(zap.NewNop())
+	st.NetStore = mcNet{}
 	f, ok := m.Call(nil)[0].Interface().(raft.FSM)
 	if !ok {
 		return nil
